@@ -48,7 +48,8 @@ LEVEL_NOTE = (
     "whose target disappeared while the import stayed is unresolvable in new and therefore skipped, as the property demands, so that removal "
     "is not reported. Breakage.explain() styles are exercised for crashes only. Findings F1 (cyclic re-export aborted), F2 (seen_paths on old "
     "paths only) and F3 (empty __all__ ignored) are repaired in /repo; their witnesses are regression cases that must pass.")
-MODEL = ("Model.C11_apidiff", "run_C11")
+MODEL = ("Model.C11_run", "run_C11x")
+MODEL_TARGETS = ["Model/C11_run.vo"]
 COQ_TARGETS = ["Proofs/C11_apidiff.vo"]
 RULE = ("seeded random packages (2-5 modules incl. private modules and a sub-package; functions with C10-style signatures, classes with "
         "local/imported bases and public/private/special members, attributes, re-export imports incl. chains, module imports, dangling, "
@@ -248,6 +249,71 @@ def gen_mod(rng, name, pkg=False):
     return m
 
 
+H_PUB = ["Top", "Leaf", "W", "Q", "K", "L", "M", "Base"]
+H_PRIV = ["_Mid", "_Mix", "_B", "_K", "_Impl", "_Styled"]
+H_NAMES = ["m", "n", "v", "w", "run", "x", "__call__", "_p", "size"]
+
+
+def gen_hierarchy(rng, mods):
+    """Insert a multi-level class hierarchy (chain of 3 / 4, diamond, two unrelated bases) whose classes share a small pool of member
+    names, so that a name is usually defined by several ancestors; intermediate classes are mostly private (`_Mid`-style), root and
+    leaf mostly public.  With some probability the non-leaf classes live in another module and the leaf's direct bases are imported."""
+    m, mp = rng.choice(mods)
+    others = [x for x in mods if x[0] is not m]
+    m2, mp2 = rng.choice(others) if others and rng.random() < 0.4 else (m, mp)
+    used = {bound(d) for d in m.defs} | {s.name for s in m.subs}
+    used2 = used if m2 is m else {bound(d) for d in m2.defs} | {s.name for s in m2.subs}
+    shape = rng.choice(["chain3", "chain3", "chain4", "diamond", "two-bases", "chain3-mixin"])
+    pool = rng.sample(H_NAMES, rng.randint(2, 4))
+    kinds = {n: rng.choice(["func", "attr", "attr"]) for n in pool}
+
+    def body():
+        out = []
+        for n in rng.sample(pool, rng.randint(1, len(pool))):
+            k = kinds[n] if rng.random() < 0.85 else rng.choice(["func", "attr"])
+            if k == "func":
+                out.append({"kind": "func", "name": n, "sig": random_sig(rng), "ret": rng.choice([None, None, "int"])})
+            else:
+                out.append({"kind": "attr", "name": n, "value": rng.choice([None, 1, 2, 3])})
+        return out
+
+    def mk(private, bases, us):
+        nm = fresh(rng, us | used, [H_PRIV] if private else [H_PUB])
+        us.add(nm)
+        return {"kind": "class", "name": nm, "bases": list(bases), "body": body()}
+
+    pm = lambda p: rng.random() < p
+    if shape in ("chain3", "chain4"):
+        a = mk(pm(0.3), [], used2)
+        chain = [a]
+        for _ in range(1 if shape == "chain3" else 2):
+            chain.append(mk(pm(0.7), [chain[-1]["name"]], used2))
+        upper, direct = chain, [chain[-1]["name"]]
+    elif shape == "diamond":
+        a = mk(pm(0.3), [], used2)
+        b = mk(pm(0.7), [a["name"]], used2)
+        c_ = mk(pm(0.7), [a["name"]], used2)
+        upper, direct = [a, b, c_], [b["name"], c_["name"]]
+    elif shape == "two-bases":
+        a = mk(pm(0.5), [], used2)
+        b = mk(pm(0.5), [], used2)
+        upper, direct = [a, b], [a["name"], b["name"]]
+    else:   # a private mixin ahead of a chain: Leaf(_Mix, _Mid) with _Mid(Top)
+        a = mk(pm(0.3), [], used2)
+        b = mk(pm(0.7), [a["name"]], used2)
+        x = mk(True, [], used2)
+        upper, direct = [a, b, x], [x["name"], b["name"]]
+    m2.defs.extend(upper)
+    used |= {u["name"] for u in upper}
+    if m2 is not m:
+        for n in direct:
+            m.defs.append({"kind": "import", "frm": mp2, "name": n})
+            used.add(n)
+    leaf = mk(pm(0.15), direct, used)
+    m.defs.append(leaf)
+    return shape
+
+
 def gen_pkg(rng, stream, facade=False):
     """A package `pkg`; with facade=True the layout Griffe itself uses: a private top-level package `_pkg` holding the code and a
     public top-level package `pkg` whose __init__ re-exports from it through __all__."""
@@ -262,6 +328,9 @@ def gen_pkg(rng, stream, facade=False):
         else:
             root.subs.append(gen_mod(rng, n))
     mods = list(iter_mods(root))
+    if stream == "hierarchy" or rng.random() < 0.2:
+        for _ in range(rng.randint(1, 2)):
+            gen_hierarchy(rng, mods)
     # imports / re-exports
     for m, mp in mods:
         for _ in range(rng.choice([0, 0, 1, 1, 2, 3])):
@@ -651,7 +720,43 @@ def e_dangle(rng, pkg):
     return None
 
 
+def e_override_edit(rng, pkg):
+    """An incompatible edit of a class member whose name is defined in several class bodies (a definition that overrides, or is
+    overridden by, another one along some inheritance chain), preferably inside a private class."""
+    by_name = {}
+    for lst, d, p, mod, mp in iter_defs(pkg):
+        if lst is not mod.defs and d["kind"] in ("func", "attr"):
+            by_name.setdefault(d["name"], []).append((lst, d, p))
+    c = [x for n, xs in by_name.items() if len(xs) > 1 for x in xs]
+    if not c:
+        return None
+    priv = [x for x in c if x[2].split(".")[-2].startswith("_")]
+    lst, d, p = rng.choice(priv if priv and rng.random() < 0.7 else c)
+    ops = ["remove", "rekind"]
+    if d["kind"] == "attr" and d["value"] is not None:
+        ops += ["value", "value"]
+    if d["kind"] == "func" and d["sig"] and not any(q[1] in ("VP", "VK") for q in d["sig"]):
+        ops += ["param", "param"]
+    op = rng.choice(ops)
+    if op == "remove":
+        lst.remove(d)
+        return {"edit": "override-remove-" + d["kind"], "class": "incompatible", "path": p, "expect": "OBJECT_REMOVED", "touched": []}
+    if op == "value":
+        d["value"] = rng.choice([v for v in (None, 1, 2, 3, 7) if v != d["value"]])
+        return {"edit": "override-change-value", "class": "incompatible", "path": p, "expect": "ATTRIBUTE_CHANGED_VALUE", "touched": []}
+    if op == "param":
+        sig = list(d["sig"])
+        sig.pop(rng.randrange(len(sig)))
+        d["sig"] = tuple(sig)
+        return {"edit": "override-param-remove", "class": "incompatible", "path": p, "expect": "PARAMETER_REMOVED", "touched": []}
+    old, name = d["kind"], d["name"]
+    d.clear()
+    d.update({"kind": "func", "name": name, "sig": (), "ret": None} if old == "attr" else {"kind": "attr", "name": name, "value": 1})
+    return {"edit": f"override-rekind-{old}", "class": "incompatible", "path": p, "expect": "OBJECT_CHANGED_KIND", "touched": []}
+
+
 EDITS = {
+    "override": e_override_edit,
     "add-public": lambda r, p: e_add_def(r, p, False), "add-private": lambda r, p: e_add_def(r, p, True),
     "add-module": e_add_module, "add-optional-kwonly": e_add_kwonly,
     "remove-def": e_remove_def, "remove-reexport": e_remove_reexport, "remove-module": e_remove_module,
@@ -742,6 +847,101 @@ class Abstraction:
         return i
 
 
+class RawAbstraction:
+    """Loaded Griffe collection -> raw store for the "ediff" model entry: declared structure only.  Aliases carry their target
+    *path*, classes the canonical path of each base expression; `alias.target`, resolved bases, MRO and inherited members are NOT
+    read here (the Coq elaboration computes them) -- `views()` reads them from Griffe separately, for the comparison."""
+
+    def __init__(self, root, interner, pnames):
+        self.I, self.pnames = interner, pnames
+        self.index, self.paths, self.objs, self.nodes = {}, [], [], []
+        self.collisions = 0
+        coll = root.modules_collection.members
+        self.coll = [[name, self.walk(m)] for name, m in coll.items()]
+        self.root = self.index[root.path]
+
+    def pn(self, name):
+        if name not in self.pnames:
+            self.pnames[name] = len(self.pnames)
+        return self.pnames[name]
+
+    def walk(self, obj):
+        path = obj.path
+        if path in self.index:
+            if self.objs[self.index[path]] is not obj:
+                self.collisions += 1
+            return self.index[path]
+        i = len(self.nodes)
+        self.index[path] = i
+        self.paths.append(path)
+        self.objs.append(obj)
+        self.nodes.append(None)
+        pub = [] if obj.public is None else [bool(obj.public)]
+        if obj.is_alias:
+            body = ["alias", obj.target_path.split(".")]
+        else:
+            k = obj.kind.value
+            if k == "module":
+                ex = [] if obj.exports is None else [[str(e) for e in obj.exports]]
+                body = ["module", ex, list(obj.imports), [[n, self.walk(m)] for n, m in obj.members.items()]]
+            elif k == "class":
+                bps = [(b if isinstance(b, str) else b.canonical_path).split(".") for b in obj.bases]
+                body = ["class", list(obj.imports), [self.I.atom(b) for b in obj.bases], bps,
+                        [[n, self.walk(m)] for n, m in obj.members.items()]]
+            elif k == "function":
+                sg = [[self.pn(p.name), PARAM_KIND[p.kind.value], [] if p.default is None else [self.I.atom(p.default)]] for p in obj.parameters]
+                body = ["function", sg, [] if obj.returns is None else [self.I.atom(obj.returns)]]
+            else:
+                body = ["attribute", [] if obj.value is None else [self.I.atom(obj.value)]]
+        self.nodes[i] = [obj.name, pub, body]
+        return i
+
+    def store(self):
+        return [self.nodes, self.coll]
+
+    def views(self):
+        """What Griffe itself answers, per raw node, in the shape of the model's enc_views (indices -> paths)."""
+        from _griffe.exceptions import AliasResolutionError, CyclicAliasError
+        out = []
+        for o in self.objs:
+            if o.is_alias:
+                try:
+                    out.append(["alias", ["res", o.target.path]])
+                except AliasResolutionError:
+                    out.append(["alias", ["unres"]])
+                except CyclicAliasError:
+                    out.append(["alias", ["cyc"]])
+            elif o.kind.value == "class":
+                rb = [b.path for b in o.resolved_bases if b.is_class]
+                try:
+                    mro = ["ok", [k.path for k in o.mro()]]
+                except ValueError as e:
+                    mro = ["err", "cycle" if "cycle" in str(e) else "inconsistent"]
+                out.append(["class", rb, mro, [[n, a.target.path] for n, a in o.inherited_members.items()]])
+            else:
+                out.append(["other"])
+        return out
+
+    def decode_views(self, vs):
+        P = lambda i: self.paths[i] if i < len(self.paths) else f"#{i}"
+        out = []
+        for v in vs:
+            if v[0] == "alias":
+                out.append(["alias", ["res", P(v[1][1])] if v[1][0] == "res" else [v[1][0]]])
+            elif v[0] == "class":
+                mro = ["ok", [P(i) for i in v[2][1]]] if v[2][0] == "ok" else list(v[2])
+                out.append(["class", [P(i) for i in v[1]], mro, [[n, P(m)] for n, m in v[3]]])
+            else:
+                out.append(["other"])
+        return out
+
+    def path_of(self, i, extra):
+        if i < len(self.paths):
+            return self.paths[i]
+        c, n = extra[i - len(self.paths)]
+        return f"{self.paths[c]}.{n}"
+
+
 def doc_is_public(parent, m):
     """The decision ladder as documented in the docstring of is_public (+ the documented module exception)."""
     if m.public is not None:
@@ -808,7 +1008,128 @@ def reference_reach(old_root, new_root):
             for name, m in members_of(o).items():
                 if doc_is_public(o, m):
                     todo.append(("head", m, nm_.get(name)))
-    return old_paths, new_paths
+    pairs = {(k[1], k[2]) for k in seen if k[0] == "members" and k[2] is not None}
+    return old_paths, new_paths, pairs
+
+
+# --------------------------------------------------------------------------------------------------------------------
+# CPython's view of the generated classes, computed from the package *specs* (never from Griffe): every class statement of a
+# spec becomes a real class (`type(name, bases, namespace)`), so the MRO is CPython's C3 and the provider of a name is CPython's
+# lookup along `__mro__`.  Base names are resolved the way the interpreter would (module scope, `from m import n` chains).
+# Declared-but-unassigned attributes (`x: int`) count as declared members (Griffe's object model; CPython would not bind them).
+# --------------------------------------------------------------------------------------------------------------------
+class SpecWorld:
+    def __init__(self, spec):
+        self.scope, self.order, self.class_at, self.cache = {}, {}, {}, {}
+        for mod, mp in iter_mods(spec):
+            sc = {s.name: ("module", f"{mp}.{s.name}") for s in mod.subs}
+            for k, d in enumerate(mod.defs):
+                sc[bound(d)] = ("import", d) if d["kind"] == "import" else ("def", d, f"{mp}.{d['name']}", mp)
+                self.order[(mp, bound(d))] = k
+            self.scope[mp] = sc
+        for lst, d, p, mod, mp in iter_defs(spec):
+            if d["kind"] == "class":
+                self.class_at[p] = (d, mp, lst is mod.defs)
+
+    def resolve(self, mp, name, seen=()):
+        """What the interpreter binds `name` to in module `mp`: ('def', d, path, module) / ('module', path) / None (ImportError)."""
+        b = self.scope.get(mp, {}).get(name)
+        if b is None or b[0] != "import":
+            return b
+        d = b[1]
+        if (mp, name) in seen or d["frm"] not in self.scope:
+            return None
+        return self.resolve(d["frm"], d["name"], seen + ((mp, name),))
+
+    def build(self, path, stack=()):
+        """The real class for the class statement at `path`: a type, or a string saying why CPython would not create it."""
+        if path in self.cache:
+            return self.cache[path]
+        if path in stack:
+            return "cycle"
+        d, mp, toplevel = self.class_at[path]
+        bases, why = [], None
+        for b in d["bases"]:
+            r = self.resolve(mp, b) if toplevel else None
+            if r is None or r[0] != "def" or r[1]["kind"] != "class":
+                why = "base-not-a-class"
+                break
+            if self.order.get((mp, b), 10**6) > self.order.get((mp, d["name"]), -1):
+                why = "forward-reference"
+                break
+            t = self.build(r[2], stack + (path,))
+            if isinstance(t, str):
+                why = "base:" + t.split(":")[-1]
+                break
+            bases.append(t)
+        if why is None:
+            ns = {bound(x): ("member", x, f"{path}.{bound(x)}") for x in d["body"]}
+            try:
+                t = type(d["name"], tuple(bases), ns)
+                t._spec_path = path
+            except TypeError:
+                t = "type-error"
+        else:
+            t = why
+        self.cache[path] = t
+        return t
+
+    @staticmethod
+    def names(t):
+        out = []
+        for k in t.__mro__[:-1]:
+            for n, v in vars(k).items():
+                if isinstance(v, tuple) and v[:1] == ("member",) and n not in out:
+                    out.append(n)
+        return out
+
+    @staticmethod
+    def lookup(t, n):
+        """_PyType_Lookup: the first class of tp_mro whose __dict__ has the name -> (definition, defining class, depth)."""
+        for depth, k in enumerate(t.__mro__[:-1]):
+            v = vars(k).get(n)
+            if isinstance(v, tuple) and v[:1] == ("member",):
+                assert getattr(t, n) is v
+                return v[1], k, depth
+        return None
+
+
+def name_is_private(n):
+    return n.startswith("_") and not (n.startswith("__") and n.endswith("__"))
+
+
+def class_view_expectations(wo, wn, po, pn):
+    """What must be reported for the compared pair of classes (old `po`, new `pn`) according to CPython's view of each public name
+    visible on the old class: -> (list of (why, kind, acceptable path, name, depth, overridden)), or a string (no oracle)."""
+    to, tn = wo.build(po), wn.build(pn)
+    if isinstance(to, str) or isinstance(tn, str):
+        return "old:" + to if isinstance(to, str) else "new:" + tn
+    out = []
+    for n in SpecWorld.names(to):
+        if name_is_private(n):
+            continue
+        xo, ko, depth = SpecWorld.lookup(to, n)
+        definers = sum(1 for k in to.__mro__[:-1] if n in vars(k) and isinstance(vars(k)[n], tuple))
+        tag = (n, depth, definers > 1)
+        hit = SpecWorld.lookup(tn, n)
+        if hit is None:
+            out.append(("removed", "OBJECT_REMOVED", f"{po}.{n}") + tag)
+            continue
+        xn, kn, _ = hit
+        at = f"{kn._spec_path}.{n}"
+        if xo["kind"] != xn["kind"]:
+            out.append(("kind", "OBJECT_CHANGED_KIND", at) + tag)
+        elif xo["kind"] == "attr" and xo["value"] != xn["value"]:
+            out.append(("value", "ATTRIBUTE_CHANGED_VALUE", at) + tag)
+        elif xo["kind"] == "func":
+            newn = {q[0] for q in xn["sig"]}
+            if not any(q[1] in ("VP", "VK") for q in xn["sig"]) and any(q[0] not in newn for q in xo["sig"]):
+                out.append(("param", "PARAMETER_REMOVED", at) + tag)
+            if xo.get("ret") and not xn.get("ret"):
+                out.append(("return", "RETURN_CHANGED_TYPE", at) + tag)
+        else:
+            out.append(("same", None, at) + tag)
+    return out
 
 
 class Timeout(Exception):
@@ -937,12 +1258,19 @@ def run_cases(ctx, cases, tally):
             ctx.observe("abstraction", "path-collision")
             ctx.tie_failure("harness", "two distinct objects share a path", [ao.collisions, an.collisions], c.json)
             continue
+        try:
+            c.raw = (RawAbstraction(c.old, I, pn), RawAbstraction(c.new, I, pn))
+        except Exception as e:  # noqa: BLE001
+            ctx.tie_failure("harness", "raw abstraction failed", repr(e)[:300], c.json)
+            continue
         rows.append((c, status, ibs, ao, an, {v: k_ for k_, v in pn.items()}))
     res = ctx.model([model_case(ao, an) for _, _, _, ao, an, _ in rows])
+    eres = ctx.model([["ediff", c.raw[0].store(), c.raw[1].store(), c.raw[0].root, c.raw[1].root] for c, *_ in rows])
     pubq, pubmeta = [], []
-    for (c, status, ibs, ao, an, pr), r in zip(rows, res):
+    for (c, status, ibs, ao, an, pr), r, er in zip(rows, res, eres):
         mstatus, mbs, flags, log = decode_model(r, ao, an, pr)
         wf, exitc = flags
+        evaluate_elab(ctx, c, status, ibs, er, pr)
         evaluate(ctx, c, status, ibs, mstatus, mbs, wf, exitc, ao, an, log, tally)
         # per-member is_public: model vs implementation vs documented ladder
         for ab in (ao, an):
@@ -964,6 +1292,41 @@ def run_cases(ctx, cases, tally):
                     ctx.tie_failure("oracle", "is_public_doc(model) vs documented ladder", {"path": m.path, "model": md, "doc": dp}, c.json)
                 ctx.observe("is_public", f"impl={int(ip)} doc={int(dp)}")
     return rows
+
+
+def evaluate_elab(ctx, c, status, ibs, er, pnames_rev):
+    """(C) for the elaboration layer: alias.target outcomes, resolved bases, MRO and inherited members computed in Coq from the
+    declared structure vs what Griffe answers; then the breakages computed from the elaborated stores vs find_breaking_changes."""
+    ro, rn = c.raw
+    estatus, ebs, (rwf, wf, exitc), (vo, vn, xo, xn) = er
+    if ro.collisions or rn.collisions:
+        ctx.tie_failure("harness", "two distinct declared objects share a path", [ro.collisions, rn.collisions], c.json)
+        return
+    if not rwf:
+        ctx.observe("elab", "not-modelled:target-path-walks-through-an-alias-or-ill-formed")
+        return
+    ctx.observe("elab", "modelled")
+    if not wf:
+        ctx.tie_failure("correspondence", "elaboration of a well-formed raw store is not a well-formed store", None, c.json)
+    for side, ra, v in (("old", ro, vo), ("new", rn, vn)):
+        mv, gv = ra.decode_views(v), ra.views()
+        for path, a, b in zip(ra.paths, mv, gv):
+            ctx.observe("elab_view", a[0] + (":" + a[1][0] if a[0] == "alias" else ":mro-" + a[2][0] + f"-inh{min(len(a[3]), 4)}" if a[0] == "class" else ""))
+            if a != b:
+                what = {"alias": "Alias.target outcome", "class": "resolved bases / mro / inherited_members"}.get(a[0], "node kind")
+                ctx.tie_failure("correspondence", f"elaboration(model) vs Griffe: {what}", {"side": side, "path": path, "model": a, "impl": b}, c.json)
+                return
+    out = []
+    for b in ebs:
+        tag, sd, i = b[0], b[1], b[2]
+        path = ro.path_of(i, xo) if sd == "old" else rn.path_of(i, xn)
+        out.append([PKMAP[b[3][0]], path, pnames_rev[b[3][1]]] if tag == "param" else [BKMAP[tag], path, ""])
+    out.sort()
+    if estatus != status or (status == "ok" and out != ibs):
+        ctx.tie_failure("correspondence", "breakages(elaborated model) vs find_breaking_changes",
+                        {"model": [estatus, out[:12]], "impl": [status, ibs[:12]]}, c.json)
+    if (exitc != 0) != (status != "ok" or bool(ibs)):
+        ctx.tie_failure("correspondence", "check_exit(elaborated model) vs breakages", {"model_exit": exitc, "impl": [status, len(ibs)]}, c.json)
 
 
 def evaluate(ctx, c, status, ibs, mstatus, mbs, wf, exitc, ao, an, log, tally):
@@ -1005,7 +1368,8 @@ def evaluate(ctx, c, status, ibs, mstatus, mbs, wf, exitc, ao, an, log, tally):
         tally["unresolvable_survived"] += 1
     if any(n[2] == ["alias", ["cyc"]] for n in ao.nodes + an.nodes):
         tally["cyclic_survived"] += 1
-    reach_old, reach_new = reference_reach(c.old, c.new)
+    reach_old, reach_new, reach_pairs = reference_reach(c.old, c.new)
+    class_view_oracle(ctx, c, ibs, reach_pairs, tally)
     # every reported object is publicly reachable by the documented ladder
     for k, path, prm in ibs:
         if path not in (reach_old if k == "OBJECT_REMOVED" else reach_new):
@@ -1018,8 +1382,13 @@ def evaluate(ctx, c, status, ibs, mstatus, mbs, wf, exitc, ao, an, log, tally):
     alias_names = {}
     for i, o in enumerate(ao.objs):
         if o.is_alias:
-            try:
-                alias_names.setdefault(o.final_target.path, set()).add(ao.paths[i])
+            try:      # every link of the chain counts: pkg.sub.h -> pkg.g -> pkg.a.z makes pkg.sub.h a name of pkg.g and of pkg.a.z
+                t, hops = o.target, 0
+                while hops < 64:
+                    alias_names.setdefault(t.path, set()).add(ao.paths[i])
+                    if not t.is_alias:
+                        break
+                    t, hops = t.target, hops + 1
             except Exception:  # noqa: BLE001
                 pass
 
@@ -1127,6 +1496,32 @@ def evaluate(ctx, c, status, ibs, mstatus, mbs, wf, exitc, ao, an, log, tally):
         unexplained = [b for b in ibs if b[1] in (reach_old if b[0] == "OBJECT_REMOVED" else reach_new)]
         if unexplained:      # reports on objects outside the documented-public part are judged (and classified) above
             ctx.property_failure(c.json, {"edits below private objects only, yet reported": unexplained[:5]})
+
+
+def class_view_oracle(ctx, c, ibs, pairs, tally):
+    """Direct evaluation, independent of Griffe's inherited_members / MRO: for every compared pair of classes, what CPython's
+    attribute lookup along __mro__ says each public name of the old class is, before and after, must be reflected in the reports."""
+    if c.old_spec is None or c.overrides:
+        return
+    wo, wn = SpecWorld(c.old_spec), SpecWorld(c.new_spec)
+    for po, pn in sorted(pairs):
+        if po not in wo.class_at or pn not in wn.class_at:
+            continue
+        exp = class_view_expectations(wo, wn, po, pn)
+        if isinstance(exp, str):
+            ctx.observe("class_view", "no-oracle:" + exp)
+            continue
+        for why, kind, at, n, depth, overridden in exp:
+            ctx.observe("class_view", f"{why} depth={min(depth, 3)}{' overridden' if overridden else ''}")
+            if kind is None:
+                continue
+            tally["class_view_expectations"] += 1
+            if depth >= 1 and overridden:
+                tally["class_view_expectations_overridden_inherited"] += 1
+            if not any(b[0] == kind and b[1] == at for b in ibs):
+                ctx.property_failure(c.json, {"CPython's view of a public class changed incompatibly, not reported": [why, kind, at],
+                                              "class pair": [po, pn], "name": n, "defining class depth in old __mro__": depth,
+                                              "reported": ibs[:6]})
 
 
 # --------------------------------------------------------------------------------------------------------------------
@@ -1270,6 +1665,11 @@ def make_case(ctx, stream):
             m = EDITS[rng.choice(COMPAT + INCOMPAT)](rng, new)
             if m:
                 metas.append(m)
+    elif stream == "hierarchy":
+        for k in range(rng.choice([1, 1, 2])):
+            m = EDITS[rng.choice(["override", "override", "override", "override"] + INCOMPAT + COMPAT[:2])](rng, new)
+            if m:
+                metas += m if isinstance(m, list) else [m]
     elif stream == "incompatible-multi":
         for k in range(rng.randint(2, 3)):
             m = EDITS[rng.choice(INCOMPAT + ["class-combo"])](rng, new)
@@ -1298,7 +1698,8 @@ def make_case(ctx, stream):
 
 
 STREAMS = ["identical", "compatible", "compatible", "incompatible", "incompatible", "incompatible", "incompatible+compatible", "mixed", "mixed",
-           "empty-all", "cyclic", "class-combo", "incompatible-multi", "facade:incompatible", "facade:compatible", "facade:mixed"]
+           "empty-all", "cyclic", "class-combo", "incompatible-multi", "facade:incompatible", "facade:compatible", "facade:mixed",
+           "hierarchy", "hierarchy", "facade:hierarchy"]
 
 
 def explore(ctx):
@@ -1324,7 +1725,7 @@ def explore(ctx):
         ctx.count(k, v)
     # the direct checks must not be vacuous
     for key in ("compatible_scripts", "public_incompatible_reported", "private_only_scripts", "unresolvable_survived", "cyclic_survived",
-                "edit_expectations_in_multi_edit_scripts"):
+                "edit_expectations_in_multi_edit_scripts", "class_view_expectations_overridden_inherited"):
         if not tally[key]:
             ctx.tie_failure("harness", f"degenerate generation: no case exercised `{key}`", dict(tally))
     # CLI exit code
